@@ -150,6 +150,8 @@ def scenario(B, p):
         vcls = ["Hub", "Station", "Tagged"]
     elif p["table"] == "subclass":
         vcls = ["Vertex", "SubVertex", "Vertex"]
+    elif p["table"] == "default":
+        vcls = ["Vertex", "SubVertex", "FalsyVertex"]
     else:
         vcls = ["Vertex", "SubVertex", "Vertex"]
     verts = make_vertices(B, 3, vcls)
